@@ -472,6 +472,12 @@ def run_case(desc):
                 p2.gather([picks, {"k": picks[-1]}, (picks[0],)])
                 for nd_ in picks[:2]:
                     p2.call(_anyargs, nd_)
+            # annotations kept on nodes / edges of the COPY's graph (what a transform_physical callback or a rendering helper does with the plan it was given)
+            for nd_ in some[:3]:
+                p2.graph.nodes[nd_]["annotation-on-the-copy"] = object()
+            for u_, v_, k_ in list(p2.graph.edges(keys=True))[:3]:
+                p2.graph.edges[u_, v_, k_]["annotation-on-the-copy"] = object()
+            p2.graph.graph["annotation-on-the-copy"] = 1
             if rng.random() < 0.5 and len(some) > 1:
                 p2.graph.remove_node(some[1])
             bad = compare("mutating Plan.copy()") or (f"Plan.copy() is not independent of its original: {leak}" if leak else None)
